@@ -13,7 +13,7 @@ CHECKS = {
    design="DESIGN.md §6 C02"),
  "C04": dict(
    category="proof",
-   text="Coq (Flocq IEEE binary32/binary64): for each of 28 public constructor entry points a theorem over ALL values of the argument types: the model of the validation code agrees with the documented domain (MustErr with an allowed variant / MustOk / Unspecified regions listed), never panics, nested unwrap()/unreachable!() unreachable; LogNormal::from_mean_cv and Hypergeometric::new are proved outside explicit decidable known-defect classes and refuted inside them. The hand models are tied to the code by regenerated fingerprints and by correspondence on the special-value lattice cross product; the documented spec is also evaluated on every tuple directly against the real constructor (independent of the model).",
+   text="Coq/Flocq (Props/C04_fl.v): Normal::from_mean_cv stores exactly fl(cv*mean) (site translated from the source). Coq (Flocq IEEE binary32/binary64): for each of 28 public constructor entry points a theorem over ALL values of the argument types: the model of the validation code agrees with the documented domain (MustErr with an allowed variant / MustOk / Unspecified regions listed), never panics, nested unwrap()/unreachable!() unreachable; LogNormal::from_mean_cv and Hypergeometric::new are proved outside explicit decidable known-defect classes and refuted inside them. The hand models are tied to the code by regenerated fingerprints and by correspondence on the special-value lattice cross product; the documented spec is also evaluated on every tuple directly against the real constructor (independent of the model).",
    note="Trusted: Coq kernel, Flocq + classical real axioms; hand models (tied by correspondence); the spec file is our reading of the doc comments (DESIGN.md App. B); libm contracts for ln/powf in two constructors.",
    technique="Coq proof over IEEE floats (Flocq) of model = documented spec + lattice correspondence + spec oracle on the real constructors",
    design="DESIGN.md §6 C04, App. B"),
@@ -25,19 +25,19 @@ CHECKS = {
    design="DESIGN.md §6 C05"),
  "C07": dict(
    category="proof",
-   text="Coq/Flocq (Props/C07_fl.v): the IEEE program Bplus(mean, Bmult(sd, z)) of Normal::from_zscore equals the nested rounding, is within u|m+sz| + u(2+u)|sz| + (1+u)eta of the real affine map, scales exactly by powers of two, propagates NaN, maps z=+-inf to the signed infinity and sd=0 to mean, for every binary format. Coq: on the sampler models the decision tree for (location, scale) IS the decision tree of the standard sampler with the affine expression applied at the leaves (syntactic equality of trees; for inverse Gaussian, triangular and Pert a semantic simulation): identical decisions, identical words consumed, value = loc + scale * standard value as reals; from_zscore is literally mean + std_dev * z. Normal, LogNormal, Exp, Cauchy, Gumbel, Frechet, Pareto, Weibull, SkewNormal, Gamma (3 representations), InverseGaussian, Triangular, Pert. Direct oracle on the real crate: paired sample() calls on identical streams, exact recomputation of the map on the standard sample (bit equality where the map is the last IEEE operations), equal word counts.",
+   text="Scale families (Props/C07_scale.v): the last operation of Exp/Weibull/Pareto/Gamma sampling and the constructors' reciprocals, translated from the source on every run (tools/flprog.py -> Gen/FlProg.v, equality by reflexivity), are single rounded operations: sample = rnd(scale*g), error <= u|scale g| + eta, exact for power-of-two scales, monotone, Exp(lambda) = Exp1/lambda up to two roundings. Coq/Flocq (Props/C07_fl.v): the IEEE program Bplus(mean, Bmult(sd, z)) of Normal::from_zscore equals the nested rounding, is within u|m+sz| + u(2+u)|sz| + (1+u)eta of the real affine map, scales exactly by powers of two, propagates NaN, maps z=+-inf to the signed infinity and sd=0 to mean, for every binary format. Coq: on the sampler models the decision tree for (location, scale) IS the decision tree of the standard sampler with the affine expression applied at the leaves (syntactic equality of trees; for inverse Gaussian, triangular and Pert a semantic simulation): identical decisions, identical words consumed, value = loc + scale * standard value as reals; from_zscore is literally mean + std_dev * z. Normal, LogNormal, Exp, Cauchy, Gumbel, Frechet, Pareto, Weibull, SkewNormal, Gamma (3 representations), InverseGaussian, Triangular, Pert. Direct oracle on the real crate: paired sample() calls on identical streams, exact recomputation of the map on the standard sample (bit equality where the map is the last IEEE operations), equal word counts.",
    note="Models tied to the code by C01's pathwise correspondence; python float arithmetic is IEEE binary64.",
    technique="Coq proof (tree-map equalities / simulation) + paired-sampling oracle with exact IEEE recomputation",
    design="DESIGN.md §6 C07"),
  "C11": dict(
    category="proof",
-   text="Coq/Flocq (Props/C11_fl.v): for the stick-breaking loop of DirichletFromBeta every component is a finite float in [0,1] and the real sum of the float components is within len*(2u+3eta) of 1, for vectors of any length. Coq: reverse cumulative sum specification (entry i = sum_{j>i} alpha_j) so the stick-breaking chain uses Beta(alpha_i, tail_i); stick-breaking and gamma-normalisation outputs lie on the simplex (exact sum 1) for all inputs, lifted to every result of the Dirichlet model for both methods; method switch iff all alpha_i <= fl(0.1); at the IEEE level (Flocq, binary32/binary64, Props/C11_fl.v) the libm-free stick-breaking loop turns Beta draws that are finite floats in [0,1] (C03_beta_final_in_unit) into exactly len+1 components each of which is a finite float in [0,1], for vectors of any length. Model tied pathwise to the crate on identical alpha bits and words; simplex predicate and sample() = sample_to_slice() on the real output.",
+   text="The two assignments of the stick-breaking loop are translated from the source on every run (C11_fl_source). Coq/Flocq (Props/C11_fl.v): for the stick-breaking loop of DirichletFromBeta every component is a finite float in [0,1] and the real sum of the float components is within len*(2u+3eta) of 1, for vectors of any length. Coq: reverse cumulative sum specification (entry i = sum_{j>i} alpha_j) so the stick-breaking chain uses Beta(alpha_i, tail_i); stick-breaking and gamma-normalisation outputs lie on the simplex (exact sum 1) for all inputs, lifted to every result of the Dirichlet model for both methods; method switch iff all alpha_i <= fl(0.1); at the IEEE level (Flocq, binary32/binary64, Props/C11_fl.v) the libm-free stick-breaking loop turns Beta draws that are finite floats in [0,1] (C03_beta_final_in_unit) into exactly len+1 components each of which is a finite float in [0,1], for vectors of any length. Model tied pathwise to the crate on identical alpha bits and words; simplex predicate and sample() = sample_to_slice() on the real output.",
    note="Marginal/ratio laws reduce to C01's Beta/Gamma results by classical theorems not formalised (B-class).",
    technique="Coq proof (list recursion spec, simplex lemmas lifted over the model) + pathwise correspondence",
    design="DESIGN.md §6 C11"),
  "C12": dict(
    category="proof",
-   text="Coq/Flocq (Props/C12_fl.v): the IEEE acceptance tests x1*x1+x2*x2[+x3*x3] <= 1 of UnitDisc/UnitBall never overflow on [-1,1] coordinates and an accepted candidate has real squared norm <= 1+4u resp. 1+6u (u=2^-prec) in binary32 and binary64. Coq: norm identities of the circle/sphere transforms, angle doubling, z = 1-2s, accepted points inside the disc/ball, the exact [-1,1) draw, all lifted by induction over the rejection loop to every result of the four sampler models; the rejection stage of each model is characterised completely (Props/C12_events.v): the iteration that draws a candidate returns it (or its transform) exactly when it passes the test of the code and otherwise the loop behaves as the loop on the remaining words, so the output is the first candidate of the stream inside the region; models tied pathwise to the crate; norm predicate (4 ulp) on the real output incl. adversarial words.",
+   text="UnitSphere's libm-free transform (six translated sites) yields finite components, z in [-1,1] exactly (C12_sphere_fl_finite); the acceptance tests are translated from the source (C12_fl_source) and a python IEEE oracle decides boundary candidates exactly. Coq/Flocq (Props/C12_fl.v): the IEEE acceptance tests x1*x1+x2*x2[+x3*x3] <= 1 of UnitDisc/UnitBall never overflow on [-1,1] coordinates and an accepted candidate has real squared norm <= 1+4u resp. 1+6u (u=2^-prec) in binary32 and binary64. Coq: norm identities of the circle/sphere transforms, angle doubling, z = 1-2s, accepted points inside the disc/ball, the exact [-1,1) draw, all lifted by induction over the rejection loop to every result of the four sampler models; the rejection stage of each model is characterised completely (Props/C12_events.v): the iteration that draws a candidate returns it (or its transform) exactly when it passes the test of the code and otherwise the loop behaves as the loop on the remaining words, so the output is the first candidate of the stream inside the region; models tied pathwise to the crate; norm predicate (4 ulp) on the real output incl. adversarial words.",
    note="Uniformity reduces to classical geometric facts not formalised (B-class).",
    technique="Coq proof (real algebra lifted over the loop) + pathwise correspondence + norm oracle",
    design="DESIGN.md §6 C12"),
@@ -61,7 +61,7 @@ CHECKS = {
    design="DESIGN.md §6 C15"),
  "C03": dict(
    category="proof",
-   text="Coq theorems for the integer-exact part (weighted alias/tree indices always in range with non-zero weight, no panic); on the EXECUTABLE models of all seven discrete samplers (the decision trees run against the crate), for every word list and all valid parameters, every returned value is in the support and the panic sites (u64 underflow, 1 << 64, overflowing add, f64_to_u64 assertions, negative table index) are unreachable under the exact real semantics: StandardGeometric, Geometric, Zeta, Zipf (integer n), Poisson (Knuth, PD), Binomial (constant, Poisson limit, BINV, BTPE regions 1-4 and steps 5.1-5.3, flip), Hypergeometric (HIN, H2PE incl. its unguarded region 1, all four reflections; N < 2^51) (Props/C03_discrete.v); on the ideal real-number models of the continuous samplers, support theorems for Beta, Exp, Gamma, ChiSquared, FisherF, LogNormal, InverseGaussian, Weibull, Pareto, Frechet, Triangular, Pert (Props/C03_support.v); at the IEEE level (Flocq, binary32/binary64) the libm-free last step of Beta::sample - the `w == inf` guard and the reflection - returns a finite float in [0, 1] for every finite b > 0 and every w that is +inf or finite >= 0 (Props/C03_fl.v); the rest of the IEEE-level part of the property is decided by the direct oracle on the real code: support predicate + catch_unwind over the single-word-adversarial lattice (about 200 boundary words x positions) x parameter points of envelope E incl. integer extremes, seeded random streams, and the exhaustive sweep of all 2^24 high-bit patterns of one word for every f32 sampler, in debug and release builds. Known findings (Frechet, Gumbel, Exp1 tail, Zipf) are matched by class.",
+   text="Coq/Flocq (Props/C03_fl.v): Triangular::sample (libm-free; whole body translated from the source by tools/flprog.py and proved equal to triangular_fl by reflexivity) returns a finite float, never NaN, >= min / <= max exactly per branch, for every draw and all parameters up to 2^510, tied bit-for-bit to the crate by a python IEEE oracle; Pert's last step is >= min exactly and <= max + (u+u^2)(max-min) + u|max|; Beta's last step lies in [0,1]. Coq theorems for the integer-exact part (weighted alias/tree indices always in range with non-zero weight, no panic); on the EXECUTABLE models of all seven discrete samplers (the decision trees run against the crate), for every word list and all valid parameters, every returned value is in the support and the panic sites (u64 underflow, 1 << 64, overflowing add, f64_to_u64 assertions, negative table index) are unreachable under the exact real semantics: StandardGeometric, Geometric, Zeta, Zipf (integer n), Poisson (Knuth, PD), Binomial (constant, Poisson limit, BINV, BTPE regions 1-4 and steps 5.1-5.3, flip), Hypergeometric (HIN, H2PE incl. its unguarded region 1, all four reflections; N < 2^51) (Props/C03_discrete.v); on the ideal real-number models of the continuous samplers, support theorems for Beta, Exp, Gamma, ChiSquared, FisherF, LogNormal, InverseGaussian, Weibull, Pareto, Frechet, Triangular, Pert (Props/C03_support.v); at the IEEE level (Flocq, binary32/binary64) the libm-free last step of Beta::sample - the `w == inf` guard and the reflection - returns a finite float in [0, 1] for every finite b > 0 and every w that is +inf or finite >= 0 (Props/C03_fl.v); the rest of the IEEE-level part of the property is decided by the direct oracle on the real code: support predicate + catch_unwind over the single-word-adversarial lattice (about 200 boundary words x positions) x parameter points of envelope E incl. integer extremes, seeded random streams, and the exhaustive sweep of all 2^24 high-bit patterns of one word for every f32 sampler, in debug and release builds. Known findings (Frechet, Gumbel, Exp1 tail, Zipf) are matched by class.",
    note="The theorem part does not cover float rounding at the extreme draws; that part is exploration (exhaustive for f32 single positions). Trusted: harness support predicates, catch_unwind, watchdog.",
    technique="Coq proof (integer/ideal parts) + exhaustive f32 draw enumeration and adversarial-word lattice on the real code",
    design="DESIGN.md §6 C03"),
